@@ -170,7 +170,8 @@ class Squid:
         with open(os.path.join(self.run, 'hosts'), 'w') as f:
             f.write('127.0.0.1 localhost\n')
             for h, a in (hosts or {}).items():
-                f.write('%s %s\n' % (a, h))
+                for addr in (a if isinstance(a, (list, tuple)) else [a]):
+                    f.write('%s %s\n' % (addr, h))
         t = tree
         conf = [
             'http_port 127.0.0.1:%d %s' % (self.port, port_opts),
